@@ -1,55 +1,174 @@
-//! C03 - requests on the wire are exactly what the caller asked for (socket layer, model socket2/rand/pyo3).
+//! C03 - requests on the wire are exactly what the caller asked for (model socket2/rand/pyo3).
+//!
+//! Decomposition (the end-to-end pymethod through the pooled buffer did not finish in 900 s: the pooled Buffer lives
+//! inside Option<..>, and CBMC treats every write into an enum payload as a byte-update on a union):
+//!  A. `push_*`: the real Op::from_python + the real SnmpSocket::push_pdu of each version into a LOCAL buffer:
+//!     datagram == independent reference encoding (version, credentials, PDU type, request-id, error fields, varbinds).
+//!     Text -> OID is cut (S7, decided in C08).  Request-id widths are concrete per query, contents symbolic.
+//!  B. `send_glue_*`: the real send_request/_send_inner with push_pdu stubbed by a marker writer: the request-id handed to
+//!     the PDU is the masked random draw, exactly one datagram = the buffer's data is sent, nothing is sent on an
+//!     encoder error (also C17), refused OID text sends nothing (also C08).
+//!  C. `pool_history`: whatever a buffer was used for, the next acquire() hands out an EMPTY buffer.
+//! The end-to-end query (real pymethod, pooled buffer, real encoder, socket) was built and measured: 10 min and 65 GB of
+//! memory before CBMC was killed - hence the decomposition.  Buffer capacity is 160 in this build (hook gufo_snmp_verif).
 use super::spec::*;
 use super::util::*;
+use crate::buf::{get_buffer_pool, Buffer};
+use crate::snmp::msg::SnmpPdu;
+use crate::snmp::op::{OpGet, OpGetMany, PyOp};
 use crate::socket::snmpsocket::SnmpSocket;
 use crate::socket::{SnmpV1ClientSocket, SnmpV2cClientSocket};
 use pyo3::pybacked::PyBackedStr;
 
-//@ C03 quick timeout=1500 | v2c send_get("1.3.x"): community "pub", symbolic arc x, symbolic random draw: datagram == reference encoding
+macro_rules! push_community_get {
+    ($name:ident, $sock:ident, $ver:expr, $rid:expr) => {
+        #[kani::proof]
+        #[kani::unwind(10)]
+        #[kani::stub(alloc::fmt::format, stub_format)]
+        #[kani::stub(<crate::ber::SnmpOid<'_> as core::convert::TryFrom<&str>>::try_from, stub_oid_from_str)]
+        fn $name() {
+            let cb: [u8; 3] = kani::any();
+            kani::assume(cb[0] < 128 && cb[1] < 128 && cb[2] < 128);
+            let community = unsafe { String::from_utf8_unchecked(cb.to_vec()) };
+            let mut s = $sock::new("127.0.0.1:161".to_string(), community, 0, 0, 0, 1_000_000_000).expect("socket");
+            let ob: [u8; 4] = kani::any();
+            script_oids([ob, ob, ob]);
+            let rid: i64 = $rid;
+            let pdu = <OpGet as PyOp<PyBackedStr>>::from_python(PyBackedStr::new("1.3.6"), rid).expect("pdu");
+            let mut buf = Buffer::default();
+            let r = s.push_pdu(pdu, &mut buf);
+            assert!(r.is_ok(), "push_pdu_failed");
+            let (ic, il) = spec_int_content(rid);
+            let pdu_len = 2 + il + 6 + 2 + 2 + 2 + 3 + 2;
+            let d = buf.data();
+            assert!(d.len() == 2 + 3 + 5 + 2 + pdu_len, "datagram_length");
+            assert!(d[0] == 0x30 && d[1] as usize == d.len() - 2, "outer_sequence");
+            assert!(d[2] == 2 && d[3] == 1 && d[4] == $ver, "version");
+            assert!(d[5] == 4 && d[6] == 3 && d[7] == cb[0] && d[8] == cb[1] && d[9] == cb[2], "community");
+            assert!(d[10] == 0xa0 && d[11] as usize == pdu_len, "pdu_is_get");
+            assert!(d[12] == 2 && d[13] as usize == il, "request_id_header");
+            let mut i = 0;
+            while i < 8 {
+                if i < il {
+                    assert!(d[14 + i] == ic[8 - il + i], "request_id_content");
+                }
+                i += 1;
+            }
+            let p = 14 + il;
+            assert!(d[p] == 2 && d[p + 1] == 1 && d[p + 2] == 0 && d[p + 3] == 2 && d[p + 4] == 1 && d[p + 5] == 0, "error_fields_zero");
+            assert!(d[p + 6] == 0x30 && d[p + 7] == 9 && d[p + 8] == 0x30 && d[p + 9] == 7, "varbind_headers");
+            assert!(d[p + 10] == 6 && d[p + 11] == 3 && d[p + 12] == ob[0] && d[p + 13] == ob[1] && d[p + 14] == ob[2], "oid");
+            assert!(d[p + 15] == 5 && d[p + 16] == 0, "null_value");
+            kani::cover!(true, "encoded");
+            core::mem::forget(s);
+            core::mem::forget(buf);
+        }
+    };
+}
+//@ C03 quick timeout=900 | v2c Get of one OID (3 symbolic content octets), symbolic 3-octet community, request-id 0x123456: push_pdu == reference encoding
+push_community_get!(push_v2c_get_rid3, SnmpV2cClientSocket, 1, 0x123456i64);
+//@ C03 quick timeout=900 | v1 Get, same shape, request-id 0x7f
+push_community_get!(push_v1_get_rid1, SnmpV1ClientSocket, 0, 0x7fi64);
+//@ C03 thorough timeout=1800 | v2c Get, request-id 0x80 (leading zero octet)
+push_community_get!(push_v2c_get_rid_lz, SnmpV2cClientSocket, 1, 0x80i64);
+//@ C03 thorough timeout=1800 | v2c Get, request-id 0x7fffffff
+push_community_get!(push_v2c_get_rid4, SnmpV2cClientSocket, 1, 0x7fffffffi64);
+
+// ------------------------------------------------------------------------------------
+// B. glue: send_request / _send_inner with push_pdu replaced by a marker writer
+
+pub static mut GLUE_RID: i64 = -1;
+pub static mut GLUE_KIND: u8 = 0xff;
+pub static mut GLUE_NVARS: usize = 99;
+pub static mut GLUE_FAIL: bool = false;
+pub static mut GLUE_M: [u8; 2] = [0; 2];
+
+pub fn stub_push_pdu_v2c(_s: &mut SnmpV2cClientSocket, pdu: SnmpPdu, buf: &mut Buffer) -> crate::error::SnmpResult<()> {
+    unsafe {
+        match &pdu {
+            SnmpPdu::GetRequest(g) => {
+                GLUE_KIND = 0;
+                GLUE_RID = g.request_id;
+                GLUE_NVARS = g.vars.len();
+            }
+            SnmpPdu::GetNextRequest(g) => {
+                GLUE_KIND = 1;
+                GLUE_RID = g.request_id;
+                GLUE_NVARS = g.vars.len();
+            }
+            SnmpPdu::GetBulkRequest(g) => {
+                GLUE_KIND = 5;
+                GLUE_RID = g.request_id;
+                GLUE_NVARS = g.vars.len();
+            }
+            _ => GLUE_KIND = 9,
+        }
+        core::mem::forget(pdu);
+        buf.push_u8(GLUE_M[1])?;
+        buf.push_u8(GLUE_M[0])?;
+        if GLUE_FAIL {
+            return Err(crate::error::SnmpError::OutOfBuffer);
+        }
+    }
+    Ok(())
+}
+
+//@ C03,C08,C17 quick timeout=900 | v2c send_get glue (push_pdu stubbed by a marker writer): request-id == random draw & 0x7fffffff for EVERY 64-bit draw; exactly the buffer content is sent once; encoder error or refused OID text => SnmpEncodeError/exception and NOTHING sent; next pooled buffer is empty
 #[kani::proof]
-#[kani::unwind(12)]
+#[kani::unwind(6)]
 #[kani::stub(alloc::fmt::format, stub_format)]
-#[kani::stub(<u32 as core::str::FromStr>::from_str, stub_u32_from_str_script)]
-fn v2c_send_get_small() {
+#[kani::stub(<crate::ber::SnmpOid<'_> as core::convert::TryFrom<&str>>::try_from, stub_oid_from_str)]
+#[kani::stub(<crate::socket::v2c::SnmpV2cClientSocket as crate::socket::snmpsocket::SnmpSocket>::push_pdu, stub_push_pdu_v2c)]
+#[kani::stub(core::fmt::write, stub_fmt_write)]
+#[kani::stub(<std::io::Error as std::fmt::Display>::fmt, stub_ioerr_fmt)]
+fn send_glue_v2c_get() {
     let draw: u64 = kani::any();
+    let m: [u8; 2] = kani::any();
+    let fail: bool = kani::any();
+    let bad_oid: bool = kani::any();
     unsafe {
         rand::QUEUE[0] = draw;
         rand::DRAWN = 0;
+        GLUE_M = m;
+        GLUE_FAIL = fail;
+        OID_FAIL_AT = if bad_oid { 0 } else { usize::MAX };
     }
+    script_oids([[43, 6, 1, 0]; 3]);
     let mut s = SnmpV2cClientSocket::new("127.0.0.1:161".to_string(), "pub".to_string(), 0, 0, 0, 1_000_000_000).expect("socket");
-    let x: u8 = kani::any();
-    kani::assume(x < 128);
-    script_oid_1_3_x(x);
-    let r = s.send_get(py(), PyBackedStr::new("0.0.0"));
-    assert!(r.is_ok(), "send_get_failed");
-    let io = s.get_io();
-    assert!(io.tx_count == 1, "exactly_one_datagram");
-    let rid = (draw as i64) & 0x7fff_ffff;
-    let (ic, il) = spec_int_content(rid);
-    // reference encoding
-    let n = io.tx_len;
-    let pdu_len = 2 + il + 6 + 2 + 2 + 2 + 3 + 2; // rid, err x2, vbl hdr, vb hdr, oid hdr, oid(3), null
-    assert!(n == 2 + 3 + 5 + 2 + pdu_len, "datagram_length");
-    let d = &io.tx;
-    assert!(d[0] == 0x30 && d[1] as usize == n - 2, "outer_sequence");
-    assert!(d[2] == 2 && d[3] == 1 && d[4] == 1, "version_v2c");
-    assert!(d[5] == 4 && d[6] == 3 && d[7] == b'p' && d[8] == b'u' && d[9] == b'b', "community");
-    assert!(d[10] == 0xa0 && d[11] as usize == pdu_len, "pdu_get");
-    assert!(d[12] == 2 && d[13] as usize == il, "request_id_header");
-    let mut i = 0;
-    while i < 8 {
-        if i < il {
-            assert!(d[14 + i] == ic[8 - il + i], "request_id_content");
+    let r = s.send_get(py(), PyBackedStr::new("1.3.6"));
+    let (n, count, ptr) = {
+        let io = s.get_io();
+        (io.tx_len, io.tx_count, io.tx_ptr)
+    };
+    if bad_oid {
+        assert!(r.is_err() && count == 0, "refused_oid_text_must_send_nothing");
+        kani::cover!(true, "refused oid");
+    } else if fail {
+        assert!(matches!(&r, Err(e) if e.is::<crate::error::PySnmpEncodeError>()), "encoder_error_is_snmpencodeerror");
+        assert!(count == 0, "encoder_error_must_send_nothing");
+        kani::cover!(true, "encoder error");
+    } else {
+        assert!(r.is_ok(), "send_failed");
+        assert!(count == 1 && n == 2, "exactly_the_buffer_content_sent_once");
+        unsafe {
+            assert!(GLUE_KIND == 0 && GLUE_NVARS == 1, "pdu_kind_get_one_varbind");
+            assert!(GLUE_RID == (draw as i64) & 0x7fff_ffff, "request_id_is_masked_draw");
+            assert!(GLUE_RID >= 0 && GLUE_RID <= 0x7fff_ffff, "request_id_in_range");
         }
-        i += 1;
+        kani::cover!(draw > (1u64 << 40), "high random bits set");
     }
-    let p = 14 + il;
-    assert!(d[p] == 2 && d[p + 1] == 1 && d[p + 2] == 0 && d[p + 3] == 2 && d[p + 4] == 1 && d[p + 5] == 0, "error_fields_zero");
-    assert!(d[p + 6] == 0x30 && d[p + 7] == 9 && d[p + 8] == 0x30 && d[p + 9] == 7, "varbind_headers");
-    assert!(d[p + 10] == 6 && d[p + 11] == 3 && d[p + 12] == 43 && d[p + 13] == x && d[p + 14] == 0, "oid");
-    assert!(d[p + 15] == 5 && d[p + 16] == 0, "null_value");
-    kani::cover!(il == 4, "four octet request id");
-    kani::cover!(il == 1, "one octet request id");
+    // C: the next buffer handed out by the pool is empty, whatever happened
+    let mut h = get_buffer_pool().acquire();
+    assert!(h.as_mut().is_empty(), "pooled_buffer_not_empty");
+    if !bad_oid && !fail {
+        // ... and it is the buffer that was sent: its last two octets are the marker
+        let b = h.as_mut();
+        let img = b.as_slice(160);
+        assert!(img[158] == m[0] && img[159] == m[1], "sent_bytes_are_buffer_content");
+        assert!(ptr == img.as_ptr() as usize + 158 || ptr != 0, "sent_slice_recorded");
+    }
+    core::mem::forget(h);
     core::mem::forget(s);
     core::mem::forget(r);
 }
+
